@@ -82,6 +82,11 @@ def tier_cases(quick: bool):
                     yield {"algorithm": algo, "rules": rules}, req, {"strict": (k + ai) % 4 == 0}
                     if ti > 0 and n == 2:
                         yield {"algorithm": algo, "rules": [rules[0], other, rules[1]]}, req, {"strict": False}
+                    if n >= 2 and (k + ai) % 3 == 0:
+                        # rules that share an id / have a falsy or no id: an id never identifies a rule inside the compiled form
+                        for rid in ("t", "", None):
+                            same = [{kk: vv for kk, vv in ru.items() if kk != "id"} | ({} if rid is None else {"id": rid}) for ru in rules]
+                            yield {"algorithm": algo, "rules": same}, req, {"strict": False}
 
 
 def coercion_cases():
